@@ -1747,7 +1747,7 @@ pub fn raw_lzma_decoder_new_reset() {
     }
 }
 
-//@ harness props=C10,C12,C01 tier=quick unwind=8 unwindset=process_mode:5,default_read_exact:4,extend_with:3 mem_gb=6 timeout=600 native=no
+//@ harness props=C10,C12,C01 tier=thorough optional=yes unwind=8 unwindset=process_mode:5,default_read_exact:4,extend_with:3 mem_gb=6 timeout=600 native=no
 //@ bound: LzmaDecoder::decompress (one-shot path) on preamble + one 2-byte abstract literal, declared size 1, symbolic memlimit and dictionary size: Ok iff min(dict, 1) <= memlimit; output flushed
 #[cfg_attr(kani, kani::proof)]
 #[cfg_attr(kani, kani::stub(std::fmt::format, crate::verif_common::stub_format))]
@@ -1782,5 +1782,37 @@ pub fn raw_lzma_decompress_memlimit() {
     }
     vcover!(ok, "fits");
     vcover!(!ok, "limit_exceeded");
+    forget(dec);
+}
+
+
+//@ harness props=C11,C08,C12 tier=quick unwind=8 unwindset=process_mode:5,default_read_exact:4 mem_gb=6 timeout=600 native=no
+//@ bound: LzmaDecoder::decompress (one-shot path) with declared size 0 or 1 (concrete dictionary 4096, no limit): 5 preamble bytes (+ one 2-byte abstract literal) then foreign bytes: reader left right after the payload, sink flushed
+#[cfg_attr(kani, kani::proof)]
+#[cfg_attr(kani, kani::stub(std::fmt::format, crate::verif_common::stub_format))]
+#[cfg_attr(kani, kani::stub(std::io::Error::is_interrupted, crate::verif_common::stub_not_interrupted))]
+#[cfg_attr(kani, kani::stub(crate::decode::lzma::DecoderState::process_next_inner, crate::decode::lzma::verif_h::abs_symbol))]
+#[cfg_attr(kani, kani::stub(crate::decode::lzbuffer::LzCircularBuffer::from_stream, crate::decode::lzbuffer::verif_h::circ_from_stream_with_capacity))]
+pub fn raw_lzma_decompress_position() {
+    let mut t = Tape::<32>::new();
+    let f = [t.u8(), t.u8(), t.u8(), t.u8(), t.u8(), t.u8(), t.u8(), 0xEE, 0xEE];
+    let one = t.bool();
+    let size = if one { 1u64 } else { 0u64 };
+    let mut st = light_state::<0>(LzmaProperties { lc: 0, lp: 0, pb: 0 }, Some(size));
+    set_script(&mut st, [script(2, K_LIT), script(20, K_LIT), script(20, K_LIT), script(20, K_LIT)]);
+    let mut dec = LzmaDecoder {
+        params: LzmaParams { properties: LzmaProperties { lc: 0, lp: 0, pb: 0 }, dict_size: 0x1000, unpacked_size: Some(size) },
+        memlimit: usize::MAX,
+        state: st,
+    };
+    let mut rd = ArrReader::<9>::new(f, 9);
+    let mut sink = CountSink::new();
+    let r = dec.decompress(&mut rd, &mut sink);
+    let ok = r.is_ok();
+    forget(r);
+    vassert!(ok, "one-shot decoder: a size-bounded payload followed by foreign bytes decodes");
+    vassert!(rd.pos == if one { 7 } else { 5 }, "one-shot decoder: reader left immediately after the payload (the five preamble bytes are part of it, also for size 0)");
+    vassert!(sink.bytes == size as usize && sink.flushes >= 1, "one-shot decoder: output delivered and flushed");
+    vcover!(!one, "size_zero");
     forget(dec);
 }
